@@ -17,6 +17,9 @@ CHECKS['C12'] = dict(level='other', ref='4/C12',
 CHECKS['C16'] = dict(level='other', ref='4/C16',
    text="verilog/processor.sv, verilog/processor.v and synth/processor.v are verilated separately; the generated eval code is executed symbolically from equal arbitrary registers, arbitrary port inputs and arbitrary previous/new clock and reset levels; z3 proves all registers and outputs equal after settling and after the edge evaluation (sv==v, v==synth/v). Inductive step for all input sequences.",
    note="Trusted: Verilator 5.006 two-state semantics (X-propagation outside), irsym, z3/cvc5; path conditions of each model are proved to cover the input space before ite-summaries are compared.")
+CHECKS['C03'] = dict(level='other', ref='4/C03',
+   text="The C++ Verilator generates for hex.sv/processor.sv/memory.sv (CMake arguments) is executed symbolically: settle, then one rising clock from an arbitrary state (pc 21 bit, registers 32 bit, 2^19-word memory as SMT array); hexsim's step (decided against hexb.pdf in C02) runs from the related state; z3 proves registers equal, memory related, syscall request nets as specified, SVC leaving state to the testbench. One clock from an arbitrary related state satisfying a proved-preserved invariant: inductive.",
+   note="Trusted: Verilator 5.006 two-state semantics, irsym, z3/cvc5, object graph wired by a generated function instead of the Verilated constructors; successor pc / LDAP result assumed inside the 800000-byte range both implementations provide; invariant oreg&15==0.")
 NA = {}
 ALL = [json.loads(l)['id'] for l in open(os.path.join(V, 'properties.jsonl'))]
 PENDING = "check not built yet in this session (planned in DESIGN.md); not claimed until it exists"
